@@ -516,3 +516,129 @@ theorem readFile_minimal : ∀ (ls : List TLine) (d : Nat) (acc : List Tok), dep
               simpa [hacc, List.append_assoc] using he
 
 end C19
+
+namespace C19
+
+/-- An operation on which the model and TeX cannot differ: no `\openin` of an empty file and
+no `\read` that leaves its stream without a further real line. -/
+def safeOp (rfs : List (Nat × List TLine)) (st : RSt) (op : Op) : Bool :=
+  match op with
+  | .openin _ f => !(lookup rfs f == some [])
+  | .read n _ =>
+    match takeFile st.streams n with
+    | some ls => match readFile ls 0 [] with
+      | .ok _ (some _) => true
+      | _ => false
+    | none => true
+  | _ => true
+
+def safeRun (rfs : List (Nat × List TLine)) (st : RSt) : List Op → Bool
+  | [] => true
+  | op :: r => safeOp rfs st op && safeRun rfs (opStep false rfs st op) r
+
+/-- No stream is open on zero lines. -/
+def NoEmptyStream (st : RSt) : Prop := ∀ x ∈ st.streams, x ≠ some []
+
+theorem readFile_some_ne_nil (ls : List TLine) (toks : List Tok) (rem : List TLine)
+    (h : readFile ls 0 [] = .ok toks (some rem)) : rem ≠ [] := by
+  obtain ⟨_, taken, rest, _, hrem, _⟩ := readFile_spec ls 0 [] rfl toks (some rem) h
+  intro hnil
+  subst hnil
+  cases rest with
+  | nil => simp at hrem
+  | cons a b => simp at hrem
+
+theorem noEmpty_set (streams : List (Option (List TLine))) (n : Nat) (v : Option (List TLine))
+    (h : ∀ x ∈ streams, x ≠ some []) (hv : v ≠ some []) : ∀ x ∈ streams.set n v, x ≠ some [] := by
+  intro x hx
+  cases List.mem_or_eq_of_mem_set hx with
+  | inl h1 => exact h x h1
+  | inr h1 => rw [h1]; exact hv
+
+theorem takeFile_mem (streams : List (Option (List TLine))) (n : Int) (ls : List TLine)
+    (h : takeFile streams n = some ls) : some ls ∈ streams := by
+  simp only [takeFile] at h
+  split at h
+  · cases h
+  · rw [List.getD_eq_getElem?_getD] at h
+    cases hg : streams[n.toNat]? with
+    | none => simp [hg] at h
+    | some v =>
+      simp [hg] at h
+      subst h
+      exact List.mem_of_getElem? hg
+
+theorem opStep_agree (rfs : List (Nat × List TLine)) (st : RSt) (op : Op)
+    (hinv : NoEmptyStream st) (hsafe : safeOp rfs st op = true) :
+    opStep false rfs st op = opStep true rfs st op ∧ NoEmptyStream (opStep false rfs st op) := by
+  obtain ⟨streams, term, macros, out, status⟩ := st
+  cases status with
+  | running =>
+    cases op with
+    | openin n f =>
+      simp only [safeOp] at hsafe
+      by_cases hn : n ≥ numStreams
+      · simp [opStep, hn]; exact hinv
+      · cases hl : lookup rfs f with
+        | none => simp [opStep, hn, hl]; exact noEmpty_set streams n none hinv (by simp)
+        | some l =>
+          have hne : l ≠ [] := by intro h; subst h; simp [hl] at hsafe
+          have he : ensureNewline l = l := by
+            cases l with
+            | nil => exact absurd rfl hne
+            | cons a b => simp [ensureNewline]
+          simp [opStep, hn, hl, he]
+          exact noEmpty_set streams n (some l) hinv (by simpa using hne)
+    | closein n =>
+      by_cases hn : n ≥ numStreams
+      · simp [opStep, hn]; exact hinv
+      · simp [opStep, hn]; exact noEmpty_set streams n none hinv (by simp)
+    | ifeof n =>
+      by_cases hn : n ≥ numStreams
+      · simp [opStep, hn]; exact hinv
+      · simp [opStep, hn]; exact hinv
+    | use x => simp [opStep]; exact hinv
+    | read n x =>
+      simp only [safeOp] at hsafe
+      cases ht : takeFile streams n with
+      | none =>
+        simp only [opStep, ht]
+        cases readTerm term 0 [] with
+        | exhausted => exact ⟨trivial, hinv⟩
+        | ok toks term' => exact ⟨trivial, hinv⟩
+      | some ls =>
+        simp only [ht] at hsafe
+        cases hr : readFile ls 0 [] with
+        | unmatched => simp [hr] at hsafe
+        | ok toks rem =>
+          cases rem with
+          | none => simp [hr] at hsafe
+          | some rem =>
+            have htex := readFile_tex_open ls 0 [] toks rem hr
+            simp [opStep, ht, hr, htex]
+            exact noEmpty_set streams n.toNat (some rem) hinv
+              (by simpa using readFile_some_ne_nil ls toks rem hr)
+  | badStream => simp [opStep]; exact hinv
+  | unmatched => simp [opStep]; exact hinv
+  | termExhausted => simp [opStep]; exact hinv
+
+theorem foldl_agree (rfs : List (Nat × List TLine)) : ∀ (ops : List Op) (st : RSt),
+    NoEmptyStream st → safeRun rfs st ops = true →
+    ops.foldl (opStep false rfs) st = ops.foldl (opStep true rfs) st := by
+  intro ops
+  induction ops with
+  | nil => intro st _ _; rfl
+  | cons op r ih =>
+    intro st hinv hsafe
+    simp only [safeRun, Bool.and_eq_true] at hsafe
+    obtain ⟨he, hinv'⟩ := opStep_agree rfs st op hinv hsafe.1
+    simp only [List.foldl_cons]
+    rw [← he]
+    exact ih _ hinv' hsafe.2
+
+theorem initR_noEmpty (term : List TLine) : NoEmptyStream (initR term) := by
+  intro x hx
+  simp [initR, List.mem_replicate] at hx
+  simp [hx]
+
+end C19
